@@ -11,7 +11,7 @@ RULE = ("translator: every syntactic in-place write site of pynapple/core and py
         "arrays, plus every earlier RESULT, so aliasing between results is exposed) of ~70 public operations (restrict, count, "
         "bin_average, value_from, interpolate, threshold, dropna, convolve, smooth, find_support, get, slicing, numpy functions, set algebra, "
         "split / drop / merge of intervals, group selection / merge / conversion, correlograms, perievent, tuning curves, decoding, all "
-        "filters, spectra, randomisation, warping, save): a deep byte-level snapshot of EVERY live object is compared before/after every "
+        "filters, spectra, randomisation, warping, save, and ~17 calls with caller-owned raw arguments - unsorted key / index / timestamp arrays, label lists, dicts - which must come back unchanged): a deep byte-level snapshot of EVERY live object is compared before/after every "
         "call; item assignment and set_info on a result must change that object only; every assignment through a container entry "
         "(reserved attributes, IntervalSet items, time index items) must raise and change nothing.  distinct = distinct (operation, argument kinds)")
 PROVED = ("frame_step, frame_history (writes confined to an operation's own allocations leave every pre-existing buffer unchanged, any "
@@ -138,9 +138,27 @@ class Pool:
             self.objs.append((kind, r))
 
 
+class ArgMutated(Exception):
+    pass
+
+
+def with_args(fn, *args):
+    """call fn(*args) with caller-owned raw arguments (arrays, lists, dicts); they must come back unchanged"""
+    before = [snap(a) for a in args]
+    r = fn(*args)
+    for i, (b, a) in enumerate(zip(before, args)):
+        if snap(a) != b:
+            raise ArgMutated("argument %d (%s)" % (i, type(a).__name__))
+    return r
+
+
 def operations(P, tmp):
     R, pk = P.rng, P.pick
     ep = lambda: pk("iset")
+    def rev_keys(g):
+        k = np.array(list(g.keys()))[::-1].copy()
+        R.shuffle(k)
+        return k
     def series():
         return pk(R.choice(["tsd", "frame", "tensor"]))
     def timed():
@@ -218,6 +236,24 @@ def operations(P, tmp):
         ("resample", lambda: nap.resample_timestamps(pk("ts"))), ("shuffle", lambda: nap.shuffle_ts_intervals(pk("ts"))),
         ("build_tensor", lambda: nap.build_tensor(pk("tsd"), ep())), ("warp_tensor", lambda: nap.warp_tensor(pk("ts"), ep(), 5)),
         ("save", lambda: (lambda x: x.save(os.path.join(tmp, "s_%d.npz" % R.randrange(10**6))))(pk(R.choice(["ts", "tsd", "frame", "group", "iset"])))),
+        # caller-owned raw arguments (unsorted key / index / timestamp arrays, label lists, dicts) stay as they were
+        ("arg:group[key array]", lambda: (lambda g: with_args(lambda ka: g[ka], rev_keys(g)))(pk("group"))),
+        ("arg:group[key list]", lambda: (lambda g: with_args(lambda ka: g[ka], list(rev_keys(g))))(pk("group"))),
+        ("arg:group[mask]", lambda: (lambda g: with_args(lambda m: g[m], np.arange(len(g)) % 2 == 0))(pk("group"))),
+        ("arg:x[index array]", lambda: (lambda x: with_args(lambda ix: x[ix], np.array([7, 2, 5, 2])))(timed())),
+        ("arg:frame.loc[labels]", lambda: (lambda f: with_args(lambda lab: f.loc[lab], list(f.columns)[::-1]))(pk("frame"))),
+        ("arg:frame[:, index array]", lambda: (lambda f: with_args(lambda ix: f[:, ix], np.arange(f.shape[1])[::-1].copy()))(pk("frame"))),
+        ("arg:Ts(unsorted t)", lambda: with_args(lambda t: nap.Ts(t), np.array([5.0, 1.0, 3.0, 2.0, 9.0]))),
+        ("arg:Tsd(unsorted t, d)", lambda: with_args(lambda t, d: nap.Tsd(t, d), np.array([5.0, 1.0, 3.0, 2.0, 9.0]), np.arange(5.0))),
+        ("arg:TsdFrame(unsorted t, d, support)", lambda: with_args(lambda t, d: nap.TsdFrame(t, d, time_support=ep()), np.array([50.0, 10.0, 30.0, 20.0, 90.0]), np.arange(10.0).reshape(5, 2))),
+        ("arg:IntervalSet(unsorted)", lambda: with_args(lambda a, b: nap.IntervalSet(start=a, end=b), np.array([40.0, 0.0, 10.0, 10.0]), np.array([60.0, 12.0, 20.0, 10.0]))),
+        ("arg:IntervalSet(pairs)", lambda: with_args(lambda a: nap.IntervalSet(a), np.array([[40.0, 60.0], [0.0, 12.0], [10.0, 20.0]]))),
+        ("arg:TsGroup(arrays)", lambda: with_args(lambda d: nap.TsGroup(d), {4: np.array([3.0, 1.0, 2.0]), 1: np.array([9.0, 8.0, 30.0])})),
+        ("arg:set_info(array)", lambda: (lambda g: with_args(lambda v: g[list(g.keys())].set_info(tag=v), np.arange(len(g))[::-1].copy()))(pk("group"))),
+        ("arg:restrict(iset from arrays)", lambda: (lambda x: with_args(lambda a, b: x.restrict(nap.IntervalSet(a, b)), np.array([50.0, 0.0]), np.array([80.0, 20.0])))(timed())),
+        ("arg:discrete tuning(dict)", lambda: with_args(lambda d: nap.compute_discrete_tuning_curves(pk("group"), d), {0: ep(), 1: ep()})),
+        ("arg:tuning minmax", lambda: with_args(lambda mm: nap.compute_1d_tuning_curves(pk("group"), pk("tsd"), 4, minmax=mm), np.array([-2.0, 2.0]))),
+        ("arg:get_by_category", lambda: (lambda g: g.getby_category("grp") if "grp" in g.metadata_columns else None)(pk("group"))),
         ("copy-construct", lambda: (lambda x: nap.Tsd(x.index, x.values, time_support=x.time_support))(pk("tsd"))),
         ("TsGroup(members)", lambda: (lambda a, b: nap.TsGroup({0: a, 5: b}))(pk("ts"), pk("ts"))),
         ("TsdFrame(values)", lambda: (lambda x: nap.TsdFrame(x.t, x.values, columns=list(x.columns), time_support=x.time_support))(pk("frame"))),
@@ -240,6 +276,10 @@ def history(ctx, k, L, tmp):
             with np.errstate(all="ignore"):
                 r = f()
             err = None
+        except ArgMutated as e:
+            names.append(name)
+            ctx.fail("oracle", "operation %s changed a raw argument of the caller: %s" % (name, e), dict(level="argument", history=list(names), seed_offset=k))
+            return
         except Exception as e:
             r, err = None, e
         names.append(name)
